@@ -144,3 +144,33 @@ def cond_fixed_keys_in_list_sorted(a: int, b: int) -> bool:
     """
     v = [{'b': a, 'a': b}, {'k': [{'z': a, 'y': [b], 'x': None}]}]
     return canonserialize(v) == ref_canon(v) and canonserialize({'o': ({'d': a, 'c': b},)}) == ref_canon({'o': [{'d': a, 'c': b}]})
+
+
+def cond_codepoints_frozen_composing_pair(c1: int, c2: int) -> bool:
+    """
+    pre: 0x41 <= c1 <= 0x17F and 0x300 <= c2 <= 0x36F
+    post: _
+    """
+    # strings given by their code points (integers stay symbolic where a C-level text function would concretise a str):
+    # base letter followed by a combining mark -- the domain on which Unicode normalisation / case mapping rewrites text
+    s = chr(c1) + chr(c2)
+    return canonserialize(s) == ref_canon(s) and canonserialize({s: [s]}) == ref_canon({s: [s]})
+
+
+def cond_codepoints_injective_with_precomposed(c1: int, c2: int, c3: int) -> bool:
+    """
+    pre: 0x41 <= c1 <= 0x7A and 0x300 <= c2 <= 0x30C and 0xC0 <= c3 <= 0x17F
+    post: _
+    """
+    # a decomposed and a precomposed spelling are different JSON values: their canonical bytes must differ
+    return canonserialize(chr(c1) + chr(c2)) != canonserialize(chr(c3)) and canonserialize({chr(c3): 0, chr(c1) + chr(c2): 1}) == ref_canon({chr(c3): 0, chr(c1) + chr(c2): 1})
+
+
+def cond_codepoint_frozen_compatibility_blocks(c: int) -> bool:
+    """
+    pre: 0xA0 <= c <= 0xFF or 0x2100 <= c <= 0x214F or 0x1100 <= c <= 0x11FF or 0xFB00 <= c <= 0xFB06 or 0xFF00 <= c <= 0xFFEF
+    post: _
+    """
+    # singleton / compatibility code points (Latin-1 supplement, letterlike symbols, Hangul jamo, ligatures, full-width forms)
+    s = 'a' + chr(c)
+    return canonserialize([s]) == ref_canon([s]) and json.loads(canonserialize([s])) == [s]
